@@ -1,5 +1,6 @@
 import SkyllhModel.Proto
 import SkyllhModel.Model.Coll
+import SkyllhModel.Model.CollR7
 open Proto Coll
 
 /-  requests (all numbers decimal; names, keys and values are number codes):
@@ -88,6 +89,15 @@ def collHist (cp : Nat → C Nat → C Nat) (all : Bool) (ops : List String) : S
     -- in the "last step only" form the earlier steps are replayed without being printed or checked
     -- (every prefix is a request of its own)
     let emit := all || left == 0
+    if s.startsWith "Y:" then
+      -- `c_j.copy()` (round 7): the specification appends a plain copy of the list
+      let j := pN (s.drop 2).toString
+      let (w', r) := copyStepWith cp w j
+      if emit then
+        let s' := match (view w)[j]? with | some x => view w ++ [x] | none => view w
+        outs := outs.push s!"{fRes r}#{fWorld w'}#{fB (decide (view w' = s'))}"
+      w := w'
+    else
     match pCtor s, pOp s with
     | some (ty, arg), _ =>
         match mkNamed hasNameTy w ty arg with
@@ -114,6 +124,7 @@ def collHist (cp : Nat → C Nat → C Nat) (all : Bool) (ops : List String) : S
 def collWorld (ops : List String) : World Nat := Id.run do
   let mut w : World Nat := { next := 0, colls := [] }
   for s in ops do
+    if s.startsWith "Y:" then w := (copyStep w (pN (s.drop 2).toString)).1 else
     match pCtor s, pOp s with
     | some (ty, arg), _ => match mkNamed hasNameTy w ty arg with | .ok w' => w := w' | .error _ => pure ()
     | none, some (.inl ty) => w := newColl w ty
@@ -392,6 +403,40 @@ def cfgRun (tabs : Tabs) (world : String) (rest : List String) : String := Id.ru
             outs := outs.push s!"{fCRes r}#{tail w}#1"
   return String.intercalate " " outs.toList
 
+/-- `mok <cfg>`: the six navigation outcomes of the methods on a configuration of this shape (round 7) -/
+def mokRun (K : Keys) (cfg : String) : String :=
+  let m := methodsOk (pCfg cfg) K
+  s!"{fB m.tracingW}{fB m.ncpuW}{fB m.unitsW}{fB m.tracingR}{fB m.wdR}{fB m.timeR} all={fB (methodPathsOk (pCfg cfg) K)}"
+
+/-- `xw <world> <op> ...` (round 7): writes that allocate.  op = nd:<j>:<path>:<k> | sdd:<j>:<path>:<k> |
+sdv:<j>:<path>:<k>:<v> | set:<j>:<path>:<k>:<v>  -> per op `<result>#<spec agrees 0|1>`, then `W=<world>` -/
+def xwRun (world : String) (ops : List String) : String := Id.run do
+  let cfgs := (world.splitOn "|").map pCfg
+  let nxt := (cfgs.flatMap Cfg.locs).foldl max 0 + 1
+  let mut w : CWorld := { next := nxt, cfgs := cfgs }
+  let mut outs : Array String := #[s!"inv={fB (cinvB w)}"]
+  for o in ops do
+    match o.splitOn ":" with
+    | ["nd", j, p, k] =>
+        let (w', r) := csetNewDict w (pN j) (pPath p) (pN k)
+        let (ws, rs) := cspecSetNewDict w (pN j) (pPath p) (pN k)
+        outs := outs.push s!"{fCRes r}#{fB (decide (w'.cfgs = ws.cfgs) && (fCRes r == fCRes rs) && cinvB w')}"
+        w := w'
+    | ["sdd", j, p, k] =>
+        let (w', r) := csetDefaultDict w (pN j) (pPath p) (pN k)
+        outs := outs.push s!"{fCRes r}#{fB (cinvB w')}"
+        w := w'
+    | ["sdv", j, p, k, v] =>
+        let (w', r) := csetDefaultVal w (pN j) (pPath p) (pN k) (pN v)
+        outs := outs.push s!"{fCRes r}#{fB (cinvB w')}"
+        w := w'
+    | ["set", j, p, k, v] =>
+        let (w', r) := cstep w (.set (pN j) (pPath p) (pN k) (pN v))
+        outs := outs.push s!"{fCRes r}#{fB (cinvB w')}"
+        w := w'
+    | _ => outs := outs.push "bad-op"
+  return String.intercalate " " (outs.toList ++ [s!"W={fCWorld w}"])
+
 def answer (tabs : Tabs) (line : String) : String :=
   match tokens line with
   | "coll" :: "a" :: ops => collHist copyOf true ops
@@ -408,6 +453,8 @@ def answer (tabs : Tabs) (line : String) : String :=
       | some ns => fListD toString ns | none => "E")
   | "dsc" :: ops => dscRun ops
   | "cfg" :: world :: rest => cfgRun tabs world rest
+  | ["mok", cfg] => mokRun tabs.K cfg
+  | "xw" :: world :: ops => xwRun world ops
   | _ => "bad-op"
 
 /-- `cfgtab K=… X=…` replaces the tables (answer `ok`); every other request is answered with the current ones -/
